@@ -30,14 +30,14 @@ type scOp struct {
 }
 
 type scInput struct {
-	Cap       int             `json:"cap"`
-	S         int             `json:"s"`
-	NK        int             `json:"nk"`
-	NV        int             `json:"nv"`
-	SegOf     []int           `json:"segOf"` // index = key-1
+	Cap       int               `json:"cap"`
+	S         int               `json:"s"`
+	NK        int               `json:"nk"`
+	NV        int               `json:"nv"`
+	SegOf     []int             `json:"segOf"` // index = key-1
 	Prog      map[string][]scOp `json:"prog"`
-	Schedules [][]string      `json:"schedules"`
-	TraceOut  string          `json:"traceOut"`
+	Schedules [][]string        `json:"schedules"`
+	TraceOut  string            `json:"traceOut"`
 }
 
 type arrival struct {
